@@ -192,16 +192,23 @@ struct MapGen {
         v->emplace(std::move(e));
       }
   }
+  // same set of key/value pairs (independent of iteration order: two unordered_maps with equal contents may
+  // iterate differently)
   static bool eq(const M& a, const M& b) {
     if (a.size() != b.size()) return false;
     bool r = true;
     auto ia = a.begin();
-    auto ib = b.begin();
     for (std::size_t i = 0; i < VT_MODEL_CAP; i++)
       if (i < a.size()) {
-        r = r && Gen<K>::eq(ia->first, ib->first) && Gen<T>::eq(ia->second, ib->second);
+        bool found = false;
+        auto ib = b.begin();
+        for (std::size_t j = 0; j < VT_MODEL_CAP; j++)
+          if (j < b.size()) {
+            if (Gen<K>::eq(ia->first, ib->first) && Gen<T>::eq(ia->second, ib->second)) found = true;
+            ++ib;
+          }
+        r = r && found;
         ++ia;
-        ++ib;
       }
     return r;
   }
